@@ -172,7 +172,14 @@ def run(ctx):
                             break
                         faulty = d["evals"][a] is not None
                         # a logp failure aborts the step before the second half; an energy fault does not
-                        i += 1 if (faulty and d["evals"][a] in ("rec",)) else 2
+                        two = not (faulty and d["evals"][a] in ("rec",))
+                        if two and i + 1 < len(d["esh"]):
+                            # both momentum half-updates of one step use the same (halved) step size
+                            f2 = b2f(d["esh"][i + 1]["step"]) / (math.sqrt(c["dim"]) * eps / 2)
+                            if abs(abs(f2) - 2.0 ** (-h)) > 1e-12:
+                                diffs.append("attempt %d: second momentum half-update uses step factor %r, the first 2^-%d" % (a, f2, h))
+                                break
+                        i += 2 if two else 1
                 if kind == 0 and len(hlog) == steps and steps != num_base(c):
                     diffs.append("draw without retry took %d steps, max(1, round(f*L/eps)) = %d" % (steps, num_base(c)))
             if len(hlog) > d["num_steps"]:
